@@ -72,6 +72,13 @@ func (b *c16Buf) Len() int {
 	return b.b.Len()
 }
 
+// peek returns a copy of the buffered bytes without consuming them.
+func (b *c16Buf) peek() []byte {
+	b.mu.Lock()
+	defer b.mu.Unlock()
+	return append([]byte(nil), b.b.Bytes()...)
+}
+
 // take returns and clears the buffered bytes.
 func (b *c16Buf) take() []byte {
 	b.mu.Lock()
